@@ -145,4 +145,27 @@ Proof.
                        first [intros X; discriminate X | intros _; exact (H2 eq_refl)] ]) end].
 Qed.
 
+Lemma worker_stepB k s s' : Inv c s -> InvA c s -> InvB c s -> k < nw s -> worker_step c k s = Some s' -> InvB c s'.
+Proof.
+  intros HI HA HB Hk H. old HI. oldA HA. oldB HB. pose proof (Bwcs k Hk) as Wk. unfold WB in *. worker_cases c Hl s k H.
+  all: try (exfalso; apply Hmem; apply Arm; assumption).
+  all: try (rewrite (Acr k Hk) in Hcrash; discriminate Hcrash).
+  all: constructor; unfold WB; projs; realign.
+  (* b_tgt *)
+  all: try solve [intros T; destruct (Btgt T) as (T1 & T2 & T3 & T4); updw_cases; projs; rewrite ?In_snoc;
+                  first [ congruence | repeat split; auto; intros [X|X]; [tauto|congruence] | repeat split; auto ]].
+  (* b_ev *)
+  all: try solve [intros Hc Hn i Hi He; updw_cases; projs; try discriminate; try reflexivity;
+                  first [ apply Bev; assumption
+                        | pose proof (Bev Hc Hn _ Hk He) as X; rewrite Hpc in X; discriminate X ]].
+  (* b_idle *)
+  all: try solve [intros Hc Hn i Hin; rewrite ?In_snoc in Hin; updw_cases; projs; try solve [apply Bidle; tauto];
+                  try solve [destruct (Bidle Hc Hn _ Hin) as [B1 [B2|B2]]; rewrite Hpc in B2; try discriminate B2; try congruence; (split; [assumption|left; reflexivity])]].
+  all: try solve [intros Hc Hn i Hin; apply In_snoc in Hin; updw_cases; projs;
+                  [ split; [|right; reflexivity]; destruct (w_ev (ws s k)) eqn:Ee; [|reflexivity];
+                    pose proof (Bev Hc Hn _ Hk Ee) as X; rewrite Hpc in X; discriminate X
+                  | destruct Hin as [Hin|Hin]; [|congruence]; apply Bidle; assumption ]].
+  all: match goal with Hpc : w_pc _ = ?p |- ?G => idtac "REMAINS:" p G end.
+Admitted.
+
 End Locked.
